@@ -32,6 +32,7 @@ def scenarios(pid, tier, seed):
         sc += comm_scen.fam_data(seed, 60 if big else 15, 2)
         sc += comm_scen.fam_time(seed, 60 if big else 15, 2)
         sc += comm_scen.fam_limit(seed, 60 if big else 20, 2)
+        sc += comm_scen.fam_eintr(seed, 100 if big else 25, 2)
     elif pid == "C02":
         sc += comm_scen.fam_data(seed, 900 if big else 150, 4 if big else 2)
         sc += comm_scen.fam_deadlock(seed, 100 if big else 20, 2, 0)
@@ -42,9 +43,11 @@ def scenarios(pid, tier, seed):
     elif pid == "C03":
         sc += comm_scen.fam_limit(seed, 900 if big else 150, 4 if big else 2)
         sc += comm_scen.fam_data(seed, 60 if big else 15, 2)
+        sc += comm_scen.fam_eintr(seed, 200 if big else 50, 3)
     elif pid == "C04":
         sc += comm_scen.fam_time(seed, 700 if big else 120, 4 if big else 2)
         sc += comm_scen.fam_limit(seed, 40 if big else 10, 2)
+        sc += comm_scen.fam_eintr(seed, 100 if big else 25, 2)
     return sc
 
 
